@@ -82,6 +82,7 @@ class BaseRandomLineAccessFile(collections.abc.Sequence, Generic[C], ABC):
         else:
             me = object()  # marks this iteration as the last user of the file cursor
             for n in range(len(self)):
+                self._refresh_handle()  # a replaced handle (e.g. in a forked process) does not keep our cursor
                 if self._cursor_owner is me:
                     # the cursor is right behind our previous line
                     line = self._read_next_line()
@@ -90,6 +91,12 @@ class BaseRandomLineAccessFile(collections.abc.Sequence, Generic[C], ABC):
                     line = self._read_line(n)
                     self._cursor_owner = me
                 yield line
+
+    def _refresh_handle(self):
+        """
+        Hook for variants that might need to replace the file handle before a read.
+        """
+        pass
 
     @abstractmethod
     def _file_seek(self, offset: int):
@@ -265,6 +272,7 @@ class RandomLineAccessFile(BaseRandomLineAccessFile[str]):
             self.file.close()
             self.file = None
             self._opened_in_process_with_id = None
+            self._cursor_owner = None  # the cursor of a running iteration is gone with the handle
 
     def reopen_if_needed(self):
         """
@@ -275,6 +283,9 @@ class RandomLineAccessFile(BaseRandomLineAccessFile[str]):
             # we don't want to open it when the file was not open yet to prevent accidental open
             self.close()
             self.open()
+
+    def _refresh_handle(self):
+        self.reopen_if_needed()
 
     @property
     def closed(self) -> bool:
@@ -313,6 +324,7 @@ class MemoryMappedRandomLineAccessFile(RandomLineAccessFile):
             self.mm = None
             self.file = None
             self._opened_in_process_with_id = None
+            self._cursor_owner = None  # the cursor of a running iteration is gone with the handle
 
     def _file_seek(self, offset: int):
         self.reopen_if_needed()
